@@ -51,6 +51,9 @@ func CreatePropellerUnits(
 			// todo(rdr): assigning one shard per unit until multi shard algo per unit
 			//            is clear to me.
 			ShardData: []Shard{shard},
+			// The nonce is part of what is signed: the receiver can only verify the
+			// signature over the nonce the unit carries.
+			Nonce: nonce,
 		}
 	}
 	return units, nil
